@@ -71,7 +71,10 @@ namespace detail
 			if(Value == 0)
 				return -1;
 
-			return glm::bitCount(~Value & (Value - static_cast<genIUType>(1)));
+			// on the unsigned counterpart: Value - 1 overflows for the most negative signed value
+			typedef typename make_unsigned<genIUType>::type UType;
+			UType const Pattern = static_cast<UType>(Value);
+			return glm::bitCount(static_cast<UType>(~Pattern & static_cast<UType>(Pattern - static_cast<UType>(1))));
 		}
 	};
 
@@ -272,8 +275,10 @@ namespace detail
 	{
 		GLM_STATIC_ASSERT(std::numeric_limits<T>::is_integer, "'bitfieldInsert' only accept integer values");
 
-		T const Mask = detail::mask(static_cast<T>(Bits)) << Offset;
-		return (Base & static_cast<T>(~Mask)) | ((Insert << static_cast<T>(Offset)) & Mask);
+		// on the unsigned counterpart: shifting a negative Insert or an all-ones signed mask to the left is undefined
+		typedef typename detail::make_unsigned<T>::type UType;
+		UType const Mask = static_cast<UType>(static_cast<UType>(detail::mask(static_cast<UType>(Bits))) << Offset);
+		return vec<L, T, Q>((vec<L, UType, Q>(Base) & static_cast<UType>(~Mask)) | ((vec<L, UType, Q>(Insert) << static_cast<UType>(Offset)) & Mask));
 	}
 
 #if GLM_COMPILER & GLM_COMPILER_VC
